@@ -31,7 +31,7 @@ ASSUMPTIONS = [
     'time.time() is side-effect free',
 ]
 TRUSTED_BASE = ['pyvc engine', 'z3 (sets, arrays, strings with equality only)', 'fold step table in contracts/C19.py']
-NOT_DECIDED = [ 'JoinRoom.Response / RoomTickers.Response: the loops are under contract (one arbitrary element); the whole-handler fold is additionally run as a bounded stand-in (lists of length <= 2)', 'JoinRoom.Response: the weakest reading is used for the user list (superset of the announced users, nothing outside old + announced)']
+NOT_DECIDED = [ 'JoinRoom.Response / RoomTickers.Response: the loops are under contract (one arbitrary element); the whole-handler fold is additionally run as a bounded stand-in (lists of length <= 2)']
 
 
 def sstr(ctx, name):
@@ -42,6 +42,8 @@ class World:
     def __init__(self, it: Interp, ctx: Ctx):
         self.it, self.ctx = it, ctx
         it.sym_containers = True
+        # Room.users is list[User] abstracted to the set of names: a fresh empty list stored in the field is the empty name set
+        it.attr_abstractions = {('Room', 'users'): lambda it2, v: NameSetList.empty() if isinstance(v, list) and not v else v}
         it.natives['time.time'] = Native('time.time', lambda it2, a, k: Sym(ctx.fresh_real('now'), 'real'))
         self.me = sstr(ctx, 'me')
         self.emitted: list = []
@@ -354,11 +356,11 @@ def prove_bounded_loops(src_root, ex: Explorer, res):
         announced = z3.EmptySet(S)
         for nm in names:
             announced = z3.SetAdd(announced, nm.t)
-        conj = [z3.IsSubset(announced, post['users']), z3.IsSubset(post['users'], z3.SetUnion(pre['users'], announced)),
+        conj = [post['users'] == announced,
                 bterm(post['joined']) == z3.BoolVal(True), bterm(post['private']) == z3.BoolVal(owner is not None),
                 post['operators'] == (ops.elems if ops is not None else z3.EmptySet(S)), post['members'] == pre['members']]
         conj.append(same(post['owner'], owner) if not isinstance(same(post['owner'], owner), bool) else z3.BoolVal(same(post['owner'], owner)))
-        ctx.prove('C19._on_join_room.fold[bounded]', z3.And(*conj), 'joined, announced users present, nothing outside old + announced, owner / operators replaced')
+        ctx.prove('C19._on_join_room.fold[bounded]', z3.And(*conj), 'joined, the user list is exactly the announced users (lists replace), owner / operators replaced')
         ev = w.emitted
         ctx.prove('C19._on_join_room.event[bounded]', len(ev) == 1 and ev[0].cls.name == 'RoomJoinedEvent' and ev[0].attrs['room'] is room and ev[0].attrs.get('user') is None)
     ex.run(join_room, 'join_room')
@@ -779,6 +781,9 @@ def prove_replica_loops(src_root, ex: Explorer):
         if not ok:
             return
         _, room, before = seen[0]
+        ctx.prove('C19._on_join_room.loop.starts-empty', before == z3.EmptySet(S),
+                  'the user list of a JoinRoom response REPLACES the room\'s user list (lists replace): when the loop over the announced users is '
+                  'reached the room must hold no users; a user recorded earlier (a UserJoinedRoom that arrived for a room we had left) survives otherwise')
         e = w.users._find(it, Sym(US(i), 'str'), create=False) if hasattr(w.users, '_find') else None
         u = [x[1] for x in w.users.entries if x[2] and ctx.valid(z3str(unbox(x[0])) == US(i))]
         ctx.prove('C19._on_join_room.loop.user-object', len(u) == 1, 'the user object of the announced name must be looked up (created when unknown)')
